@@ -113,7 +113,7 @@ def _shapes(tier: str, seed: int) -> List[dict]:
     else:
         exprs += list(gen.expr_shapes(1, leaves, named=True))
         deep = list(gen.expr_shapes(2, small[:4], named=True, sym_ops=False))
-        exprs += gen.sample(deep, 600, seed)
+        exprs += gen.sample(deep, 100, seed)
     # explicit shapes: lists inside lists (a list is itself a literal kind), and nested lambdas that bind a DIFFERENT
     # identifier which shares only the name or only the namespace with the variable
     pv1, pv2 = gen.path_shape(1, root=V), gen.path_shape(2, root=V)
